@@ -174,9 +174,13 @@ class Runtime:
         try:
             handler = self.handlers[type(request)]
         except KeyError as e:
-            raise TypeError(
-                f"No handler for request type {type(request).__qualname__}"
-            ) from e
+            # a default handler may have been registered after this runtime was created
+            try:
+                handler = _DEFAULT_HANDLERS[type(request)]
+            except KeyError:
+                raise TypeError(
+                    f"No handler for request type {type(request).__qualname__}"
+                ) from e
 
         return handler(request)
 
